@@ -366,6 +366,7 @@ package core
 //@   modifies mapof(self.readCache), held(self.mutex)
 //@   effect rbad self := ghost(rbad)[self] + (isnil(result.1) ? 0 : 1)
 //@   effect mdreads self
+//@   effect lastreadnil self := (result.0 == nil ? 1 : 0)
 
 // Ghost events: vcount[f] counts output validations of fork f, vok[f] is the last verdict.
 //@ func core.Fork.verifyOutput property C06
@@ -988,17 +989,31 @@ package core
 //@   ensures ghost(pslock)[as(object, ptr_core.Pipestance)] == 1
 //@   ensures forall p *core.Pipestance :: p != as(object, ptr_core.Pipestance) ==> ghost(pslock)[p] == old(ghost(pslock)[p])
 
-//@ func core.Metadata.loadCache property C15
+// (the call is the event; what is verified of the body: after a successful directory listing the
+// cache holds no more entries than files were listed - nothing stale survives a reload, in
+// particular an emptied directory gives an empty cache)
+//@ func core.Metadata.glob property C15 C05
 //@   trusted
-//@   modifies mapof(self.contents), mapof(self.readCache), held(self.mutex), ghost(cacheloads)
-//@   ensures ghost(cacheloads)[self] == old(ghost(cacheloads)[self]) + 1
-//@   ensures forall m *core.Metadata :: m != self ==> ghost(cacheloads)[m] == old(ghost(cacheloads)[m])
+//@   pure
+//@   opt deterministic on
+//@ func core.Metadata.discoverUniquify property C15 C05
+//@   trusted
+//@   modifies self.uniquifier, self.path, self.curFilesPath
+//@ func core.Metadata.loadCache property C15 C05
+//@   effect cacheloads self
+//@   requires self != nil
+//@   ensures @nostale isnil(fn(core.Metadata.glob, self, 0, 0, 0, 0).1) ==> len(self.contents) <= len(fn(core.Metadata.glob, self, 0, 0, 0, 0).0)
+//@   loop 1 invariant 0 <= iter && iter <= len(paths) && len(self.contents) <= iter
 
 //@ func core.Metadata.exists property C15
 //@   trusted
 //@   pure
 
+//@ func core.NewPipestance property C15
+//@   trusted
+//@   ensures isnil(result.1) ==> result.0 != nil && result.0.metadata != nil && fresh(result.0)
 //@ func core.Pipestance.Lock property C15
+//@   requires self != nil && self.metadata != nil
 //@   ensures @taken isnil(result) ==> ghost(pslock)[self] == 1
 //@   ensures @refused !isnil(result) ==> ghost(pslock) == old(ghost(pslock))
 //@   ensures @others forall p *core.Pipestance :: p != self ==> ghost(pslock)[p] == old(ghost(pslock)[p])
@@ -1305,3 +1320,15 @@ package core
 //@   let M = fn("regexp.Regexp.FindStringSubmatch", core.jobJournalRe, fqname)
 //@   ensures @decimalindex len(M) >= 6 && M[3] != "" ==> result.2 == fn(strconv.Atoi, M[3]).0
 //@   ensures @fields len(M) >= 6 ==> result.0 == M[1] && result.1 == M[2] && result.3 == M[4] && result.4 == M[5]
+
+// ---------------------------------------------------------------- C04 unreadable outputs are no licence to delete
+// cacheParamFileMap: when the stage's outputs are not at hand and cannot be read either (too large
+// for the memory left, I/O error), no keep-alive argument is dropped (argdropped counts
+// Fork.removeFileArg): the files stay until the outputs can be read.
+//@ func core.Fork.cacheParamFileMap property C04
+//@   requires self != nil && self.node != nil && self.node.top != nil && self.node.top.rt != nil && self.node.top.rt.Config != nil && self.metadata != nil
+//@   ensures @unreadable isnil(outs0) && ghost(mdreads)[self.metadata] > old(ghost(mdreads)[self.metadata]) && ghost(lastreadnil)[self.metadata] == 1 ==> ghost(argdropped) == old(ghost(argdropped))
+//@   loop 1 invariant !(isnil(outs0) && ghost(lastreadnil)[self.metadata] == 1 && ghost(mdreads)[self.metadata] > old(ghost(mdreads)[self.metadata]))
+//@   loop 2 invariant !(isnil(outs0) && ghost(lastreadnil)[self.metadata] == 1 && ghost(mdreads)[self.metadata] > old(ghost(mdreads)[self.metadata]))
+//@   loop 3 invariant !(isnil(outs0) && ghost(lastreadnil)[self.metadata] == 1 && ghost(mdreads)[self.metadata] > old(ghost(mdreads)[self.metadata]))
+//@   loop 4 invariant !(isnil(outs0) && ghost(lastreadnil)[self.metadata] == 1 && ghost(mdreads)[self.metadata] > old(ghost(mdreads)[self.metadata]))
